@@ -516,6 +516,18 @@ class IntEnc:
         w = t.w
         M = 1 << w
         x, y = t.args
+        # constant-time select idiom  a ^ (m & (a ^ b))  with m a 0/all-ones mask
+        for p_, o_ in ((x, y), (y, x)):
+            if isinstance(o_, Term) and o_.op == "and" and isinstance(p_, Term):
+                for mk, inner in ((o_.args[0], o_.args[1]), (o_.args[1], o_.args[0])):
+                    if isinstance(inner, Term) and inner.op == "xor" and isinstance(mk, Term) \
+                            and any(z is p_ for z in inner.args):
+                        other = inner.args[1] if inner.args[0] is p_ else inner.args[0]
+                        Bm = self.as_mask(self.F(mk)[0], w)
+                        if Bm is not None:
+                            fa, la, ha = self.F(other)
+                            fb, lb, hb = self.F(p_)
+                            return self.ite(Bm, fa, la, ha, fb, lb, hb)
         fx, lx, hx = self.F(x)
         fy, ly, hy = self.F(y)
         if fx.is_const():
